@@ -405,17 +405,7 @@ def lag_cases(tier, rng):
 
 class Lane(LaneBase):
     PROP = 'C08'
-    THEOREMS = [
-        'CG.C08.entry_law', 'CG.C08.toNumpy_refuses_iff', 'CG.C08.toNetworkx_refuses_iff', 'CG.C08.toNetworkx_faithful',
-        'CG.C08.toGml_refuses_iff', 'CG.C08.fromAdj_not2D', 'CG.C08.fromAdj_nonSquare', 'CG.C08.fromAdj_nonBinary',
-        'CG.C08.fromAdj_nameCount', 'CG.C08.fromAdj_malformed', 'CG.C08.fromAdj_validated_acyclic',
-        'CG.C08.fromAdj_validated_iff', 'CG.C08.fromNetworkx_validated_acyclic', 'CG.C08.fromSkeleton_validated_acyclic',
-        'CG.C08.fromAdj_of_law', 'CG.C08.fromAdj_toNumpy', 'CG.C08.fromAdj_toNumpy_cyclic_refused',
-        'CG.C08.fromNetworkx_toNetworkx', 'CG.C08.fromGml_toGml', 'CG.C08.fromSkeleton_skeleton',
-        'CG.C08.Ts.fromAdj_of_law_ts', 'CG.C08.Ts.fromAdj_toNumpy_ts', 'CG.C08.Ts.fromNetworkx_toNetworkx_ts',
-        'CG.C08.Ts.fromSkeleton_skeleton_ts', 'CG.C08.lagged_refuses_iff', 'CG.C08.lagged_entry_law',
-        'CG.C08.toNumpyByLag_eq',
-    ]
+    THEOREMS = 'auto'
     AUDIT = 'CG/Audit/C08.lean'
     EXHAUSTIVE = {'quick': True, 'thorough': True}
     RULE = ('every binary matrix up to 3x3 (quick) / 4x4 (thorough) with validation on and off, both classes up to 3x3, '
@@ -432,10 +422,18 @@ class Lane(LaneBase):
                'str(int) for integer node names; edge weights other than 1 in a networkx graph are outside the model',
                'get_minimal_graph() itself is modelled elsewhere (CG/Model/TS.lean): here the lagged matrices are compared '
                'on the implementation\'s own minimal graph and from_adjacency_matrices is compared with construct_minimal=False']
-    PARTIAL = ['CG.C08.fromAdjMatrices_toNumpyByLag_statement (from_adjacency_matrices(*to_numpy_by_lag()) re-creates the '
-               'edges of the minimal graph) is STATED, not proved: the block-matrix construction over lagged names is not yet '
-               'connected to the lagged entry law, and the minimal graph itself is modelled elsewhere; the lane compares '
-               'model and implementation on it and the oracle checks the round trip on the implementation',
+    PARTIAL = ['CG.C08.fromAdjMatrices_toNumpyByLag_statement (C08Lagged.lean, written before the block-matrix layer existed) '
+               'stays a `def … : Prop` and is NOT claimed: its name hypothesis (`parse var = (var, 0)`) is weaker than the C12 '
+               'domain and the statement is false for a variable such as \'a lag(n=1)x\' next to a lagged edge (re-lagging it '
+               'gives a name the node constructor rejects: ValueError in implementation and model alike). It is superseded by '
+               'the proved CG.C08.fromAdjMatrices_toNumpyByLag_full (same conclusion plus node set and the refusal of a '
+               'cyclic minimal graph, hypothesis = canonical names) and CG.C08.fromAdjMatrices_toNumpyByLag (the property '
+               'clause: import with minimisation equals the minimal graph)',
+               'lagged round trip: the theorems conclude LagImage (same node identifiers, same directed edges, same '
+               'unordered undirected pairs, fresh attributes, nothing else) and graphEq false = library == both ways; variable '
+               'types / metadata of the minimal graph and the stored orientation of `--` are not carried by the matrices. '
+               'Domain = canonical names (C12 domain), consistent templates, only -> / --, undirected edges contemporaneous, '
+               '>= 1 edge; outside it only correspondence (`lag from_min`, `lag rt`) is checked',
                'GML: the text layer (generate_gml / parse_gml) is not modelled; fromGml_toGml is the networkx round trip on '
                'the abstract value',
                'round-trip theorems (fromAdj_toNumpy, fromNetworkx_toNetworkx, …) conclude MatrixImage: same names, same '
@@ -738,6 +736,33 @@ class Lane(LaneBase):
         g = impl.new_graph('ts')
         for op in case['ops']:
             impl.apply_op(g, op)
+        res = self._lag_graph(g)
+        # a DAG whose MINIMAL graph is cyclic (DESIGN C16), derived from the variables of the case: a ring over k >= 3 of
+        # them, edge i placed alone in its own time slice; to_numpy_by_lag() describes the cyclic minimal graph, so the
+        # validated re-import must be refused (C02) and the unvalidated one must re-create the ring at lag 0
+        vs = sorted({n.variable_name for n in g.nodes})
+        if len(vs) >= 3:
+            k = 3 + len(case['ops']) % (len(vs) - 2)
+            g2 = impl.new_graph('ts')
+            try:
+                for i in range(k):
+                    lag = -(k - 1 - i)
+                    g2.add_edge(histories.ts_name(vs[i], lag), histories.ts_name(vs[(i + 1) % k], lag))
+                if len(case['ops']) % 2:        # plus a lagged chord and a floating variable at a lag
+                    g2.add_edge(histories.ts_name(vs[0], -k), histories.ts_name(vs[1], -1))
+                    if len(vs) > k:
+                        g2.add_node(histories.ts_name(vs[k], -2))
+            except Exception:  # noqa: BLE001 - a variable name the grammar cannot re-lag: no ring for this case
+                g2 = None
+            if g2 is not None:
+                res2 = self._lag_graph(g2)
+                res = {'lines': res['lines'] + res2['lines'], 'impl': res['impl'] + res2['impl'],
+                       'oracle': (res['oracle'] + ['ring: ' + x for x in res2['oracle']])[:5],
+                       'nontrivial': res['nontrivial'] or res2['nontrivial'],
+                       'tags': set(res['tags']) | {'ring:' + t for t in res2['tags']}}
+        return res
+
+    def _lag_graph(self, g):
         lines, out, oracle, tags = [], [], [], set()
         try:
             m = g.get_minimal_graph()
@@ -776,9 +801,18 @@ class Lane(LaneBase):
                 got = {(vars_[i], vars_[j]) for i in range(len(vars_)) for j in range(len(vars_)) if a[i][j] != 0}
                 if got != want[k] or not numpy.array_equal(a, a.astype(bool)):
                     oracle.append(f'lag {k}: entries {sorted(got)} expected {sorted(want[k])}')
-        # import without minimisation against the model; with minimisation against the property
+        # import without minimisation against the model (`mx from_lagged`); import WITH minimisation (the default
+        # `construct_minimal=True`) against the model's composition fromAdjacencyMatricesFull ; minimalGraph
+        # (`lag from_min` on the exported dictionary, `lag rt` on the minimal graph itself) and, on the property's
+        # domain (at least one edge, only -> / --, undirected edges contemporaneous), against the property:
+        # the round trip equals get_minimal_graph() — same node names, same directed edges, same unordered undirected
+        # pairs, nothing else, fresh attributes (a matrix carries none), library == both ways; a cyclic minimal graph
+        # is refused by the validated import (C02)
         contemporaneous_un = all(e.source.time_lag == e.destination.time_lag for e in m.edges
                                  if etext(e.get_edge_type()) == '--')
+        in_domain = bool(m.edges) and contemporaneous_un and not other
+        tags.add('lag-domain:' + ('in' if in_domain else 'out'))
+        cyc = not acyclic(di)
         for v in (0, 1):
             r, h = attempt(lambda: TimeSeriesCausalGraph.from_adjacency_matrices(mats, vars_, construct_minimal=False,
                                                                                  validate=bool(v)), enc_graph)
@@ -787,23 +821,43 @@ class Lane(LaneBase):
             tags.add('from_lagged:' + ('ok' if h is not None else r[4:]))
             if h is not None:
                 oracle += dag_report(h, v, 'from_adjacency_matrices(construct_minimal=False)')
-            if m.edges and contemporaneous_un:
-                r2, h2 = attempt(lambda: TimeSeriesCausalGraph.from_adjacency_matrices(mats, vars_, validate=bool(v)), enc_graph)
-                cyc = not acyclic(di)
+            r2, h2 = attempt(lambda: TimeSeriesCausalGraph.from_adjacency_matrices(mats, vars_, validate=bool(v)), enc_graph)
+            lines.append(f'lag from_min {v} {lagdict_text(mats)} {names_text(vars_)}')
+            out.append(r2)
+            lines.append(f'lag rt {v} {tokm}')
+            out.append(r2)
+            tags.add('from_min:' + ('ok' if h2 is not None else r2[4:]))
+            if h2 is not None:
+                oracle += dag_report(h2, 0, 'from_adjacency_matrices(construct_minimal=True)')
+            if in_domain:
+                what = 'from_adjacency_matrices(*to_numpy_by_lag())'
                 if h2 is None:
                     if not (v and cyc and r2 == 'err CyclicConnectionError'):
-                        oracle.append(f'from_adjacency_matrices(*to_numpy_by_lag()) raised {r2[4:]}')
+                        oracle.append(f'{what} raised {r2[4:]} (validate={bool(v)}, cyclic minimal graph={cyc})')
+                    else:
+                        tags.add('lag-rt:cyclic-minimal-refused')
                 else:
-                    a, b = parts(m), parts(h2)
-                    if a[1] != b[1] or a[2] != b[2] or b[3]:
-                        oracle.append('from_adjacency_matrices(*to_numpy_by_lag()) does not re-create the edges of the minimal graph')
+                    oracle += same_graph(m, h2, what + ' vs get_minimal_graph()')
                     if v and cyc:
-                        oracle.append('from_adjacency_matrices accepted a cyclic minimal graph with validation on')
+                        oracle.append(f'{what}: validated import accepted a cyclic minimal graph')
                     try:
-                        if h2 != m:
-                            tags.add('lag-rt:edges-equal-but-not-==')
-                    except Exception:  # noqa: BLE001
-                        pass
+                        if not (h2 == m and m == h2) or (h2 != m) or (m != h2):
+                            oracle.append(f'{what} != get_minimal_graph() (library ==)')
+                    except Exception as e:  # noqa: BLE001
+                        oracle.append(f'{what}: == raised {type(e).__name__}')
+                    for n in h2.nodes:
+                        if n.variable_type.name != 'UNSPECIFIED' or {k: x for k, x in n.meta.items()
+                                                                    if k not in ('variable_name', 'time_lag')}:
+                            oracle.append(f'{what}: node {n.identifier!r} carries a variable type / metadata no matrix holds')
+                            break
+                    if any(e.meta for e in h2.edges) or h2.meta:
+                        oracle.append(f'{what}: an edge or the graph carries metadata no matrix holds')
+                    try:
+                        if not h2.is_minimal_graph():
+                            oracle.append(f'{what}: the result is not a minimal graph')
+                    except Exception as e:  # noqa: BLE001
+                        oracle.append(f'{what}: is_minimal_graph raised {type(e).__name__}')
+                    tags.add('lag-rt:equal')
         return {'lines': lines, 'impl': out, 'oracle': oracle[:5], 'nontrivial': bool(m.edges), 'tags': tags}
 
     def run_lagin(self, case):
@@ -821,6 +875,27 @@ class Lane(LaneBase):
         tags.add('lagin:' + ('ok' if h is not None else r[4:]))
         if h is not None:
             oracle += dag_report(h, v, 'from_adjacency_matrices(random input)')
+        # the same input with the default construct_minimal=True: the model composes the two functions
+        r2, h2 = attempt(lambda: TimeSeriesCausalGraph.from_adjacency_matrices(
+            mats, None if names is None else list(names), validate=v), enc_graph)
+        lines.append(f'lag from_min {int(v)} {lagdict_text(mats)} {names_text(names)}')
+        out.append(r2)
+        tags.add('lagin-min:' + ('ok' if h2 is not None else r2[4:]))
+        if h is None and h2 is not None:
+            oracle.append('from_adjacency_matrices: construct_minimal=True succeeded where construct_minimal=False raised')
+        if h2 is not None:
+            oracle += dag_report(h2, 0, 'from_adjacency_matrices(random input, construct_minimal=True)')
+            try:
+                # the result of the minimising import is a minimal graph, and it is the minimal graph of the
+                # non-minimised import
+                if not h2.is_minimal_graph():
+                    oracle.append('from_adjacency_matrices(random input): the result is not a minimal graph')
+                hm = h.get_minimal_graph()
+                if not (hm == h2 and h2 == hm):
+                    oracle.append('from_adjacency_matrices(random input): construct_minimal=True differs from the minimal '
+                                  'graph of the construct_minimal=False result')
+            except Exception as e:  # noqa: BLE001
+                oracle.append(f'from_adjacency_matrices(random input): minimal-graph checks raised {type(e).__name__}')
         return {'lines': lines, 'impl': out, 'oracle': oracle, 'nontrivial': any(any(any(r) for r in a) for _, a in case['mats']),
                 'tags': tags}
 
